@@ -62,13 +62,16 @@ func init() {
 type State struct {
 	Height int64
 	Time   int64 // seconds after T0
+	Ms     int64 // constant sub-second part of every block time of this run, in milliseconds (0 in all but the sub-second runs)
 	Stores [nStores][]KV
 	Used   uint32 // bitmask of call templates already used on this path (IDs are a function of the template)
 	Msgs   int    // messages delivered since the last EndBlock (per-block message bound)
 	Mon    []byte // canonical serialisation of the monitor (history) variables
 }
 
-func (s *State) BlockTime() time.Time { return T0.Add(time.Duration(s.Time) * time.Second) }
+func (s *State) BlockTime() time.Time {
+	return T0.Add(time.Duration(s.Time)*time.Second + time.Duration(s.Ms)*time.Millisecond)
+}
 
 // Hash is the identity of a state: SHA-256 over every field, nothing dropped.
 func (s *State) Hash() [32]byte {
@@ -77,6 +80,7 @@ func (s *State) Hash() [32]byte {
 	w64 := func(v uint64) { binary.BigEndian.PutUint64(b[:], v); h.Write(b[:]) }
 	w64(uint64(s.Height))
 	w64(uint64(s.Time))
+	w64(uint64(s.Ms))
 	w64(uint64(s.Used))
 	w64(uint64(s.Msgs))
 	for i := 0; i < nStores; i++ {
